@@ -375,7 +375,10 @@ def _r6(ctx, pkg):
     ctx.saw(NET, "Network.export")
     src = ast.unparse(fn)
     w = [c for c in ast.walk(fn) if isinstance(c, ast.Call) and ast.unparse(c.func) == "self.write"]
-    ok = len(w) == 1 and ast.unparse(w[0].args[0]) == "reaction_file" and ast.unparse(w[0].args[1]) == "'naunet'" and "reaction_file = path / 'reactions.naunet'" in src
+    # by role: the first argument is a local whose value is <export dir> / 'reactions.naunet'
+    arg0 = w[0].args[0] if len(w) == 1 and w[0].args else None
+    val0 = [ast.unparse(n.value) for n in ast.walk(fn) if isinstance(n, ast.Assign) and isinstance(arg0, ast.Name) and any(isinstance(t, ast.Name) and t.id == arg0.id for t in n.targets)]
+    ok = len(w) == 1 and len(w[0].args) >= 2 and ast.unparse(w[0].args[1]) == "'naunet'" and len(val0) == 1 and re.fullmatch(r"\w+ / 'reactions\.naunet'", val0[0]) is not None
     ctx.check(ok, "R6", "Network.export:reaction-file", (NET, fn.lineno), "export writes path/'reactions.naunet' in the 'naunet' format", found=ast.unparse(w[0]) if w else "")
     # ... on EVERY path that goes on to write the configuration and the sources (must-pass-through): the exchange file and the
     # generated code describe the same network also when the project directory already exists
@@ -401,7 +404,8 @@ def _r6(ctx, pkg):
                     return False
             return None
         dom = dominating(fn.body)
-        later = [c for c in ast.walk(fn) if isinstance(c, ast.Call) and ast.unparse(c.func) in ("tl.render", "outf.write", "NetworkConfiguration") and c.lineno > w[0].lineno]
+        later = [c for c in ast.walk(fn) if isinstance(c, ast.Call) and (ast.unparse(c.func) == "NetworkConfiguration" or (isinstance(c.func, ast.Attribute) and c.func.attr in ("render", "write") and
+                                                                                                                  ast.unparse(c.func) != "self.write")) and c.lineno > w[0].lineno]
         ctx.check(dom is True and len(later) >= 2, "R6", "Network.export:reaction-file on every continuing path", (NET, w[0].lineno),
                   "every path that reaches the configuration/source rendering has (re)written reactions.naunet" if dom else
                   "reactions.naunet is written only on some of the paths that go on to regenerate the configuration and sources: re-exporting into an existing project "
@@ -418,8 +422,9 @@ def _r6(ctx, pkg):
     ctx.check(fm is not None and ast.literal_eval(fm) == "naunet", "R6", "Reaction.format", (RFILE, rc.node.lineno), "'naunet' maps (via supported_reaction_class) to the class whose __format__ wrote the file")
     # binding energies / yields of every surface species travel with the export
     fl = Flow(init, CONF)
-    for nm, attr in (("binding", "eb"), ("yields", "photon_yield")):
-        vals = fl.assigns.get(nm, [])
+    stv = {f.target: f for f in fl.facts if f.kind == "attrstore" and f.target in ("_bindingenergy", "_photonyield")}
+    for nm, attr, tgt in (("binding", "eb", "_bindingenergy"), ("yields", "photon_yield", "_photonyield")):
+        vals = [(stv[tgt].value, None, None, stv[tgt].line)] if tgt in stv else []
         ok = False
         found = ""
         if vals:
@@ -432,12 +437,8 @@ def _r6(ctx, pkg):
         ctx.check(ok, "R6", f"NetworkConfiguration:{nm}", (CONF, vals[-1][3] if vals else init.lineno),
                   f"the exported table holds {attr} of every surface species of the network (values set through the API included)",
                   expected=f"{{s.name: s.{attr} for s in network.species if s.is_surface}}", found=found)
-    st = [f for f in fl.facts if f.kind == "attrstore" and f.target in ("_bindingenergy", "_photonyield")]
-    ok = {f.target: simp(f.value) for f in st}
-    ctx.check(ok.get("_bindingenergy") == simp(fl.assigns["binding"][-1][0]) if "binding" in fl.assigns else False, "R6", "NetworkConfiguration:_bindingenergy", (CONF, init.lineno),
-              "the exported binding energies are that table")
-    ctx.check(ok.get("_photonyield") == simp(fl.assigns["yields"][-1][0]) if "yields" in fl.assigns else False, "R6", "NetworkConfiguration:_photonyield", (CONF, init.lineno),
-              "the exported yields are that table")
+    for tgt, what in (("_bindingenergy", "binding energies"), ("_photonyield", "yields")):
+        ctx.check(tgt in stv, "R6", f"NetworkConfiguration:{tgt}", (CONF, init.lineno), f"the exported {what} are that table")
 
 
 MUTANTS = [
